@@ -31,7 +31,7 @@ func (l *ConsumerLog) Override(_ logger.Logger, name string, _ base.ChunkDecoder
 	return &RecConsumer{Name: name, args: args, stopped: channels.NewSignalAwaitable(), sink: l}
 }
 
-func (c *RecConsumer) Start()                       { go c.run() }
+func (c *RecConsumer) Start()                      { go c.run() }
 func (c *RecConsumer) Stopped() channels.Awaitable { return c.stopped }
 
 func (c *RecConsumer) run() {
